@@ -267,7 +267,7 @@ def plan(tier, seed):
                 specs.append(dict(name="faults-%d-%s-%d" % (S, which, nseg), kind="faults", S=S, which=which, nseg=nseg, tier=tier))
     specs.append(dict(name="fault-pairs", kind="pairs", tier=tier))
     for i in range(4):
-        specs.append(dict(name="streams-%d" % i, kind="streams", n=1200 if tier == "quick" else 12000))
+        specs.append(dict(name="streams-%d" % i, kind="streams", n=1500 if tier == "quick" else 40000))
     return specs
 
 
